@@ -3,7 +3,7 @@ from . import layout
 from . import c01
 from . import inplace
 from .core import RuleResult
-from .facts import fn_file, fn_key, fn_loc, walk, strip, peel_refs, Render
+from .facts import fn_file, fn_key, fn_loc, walk, strip, peel_refs, Render, pat_bindings
 from .sym import Tracer, Term, Cmp, k, as_term, walk_terms
 
 LEVEL = ("Static analysis of linfa-reduction's PCA: (guard) the empty-dataset test and the embedding-size tests (size outside "
@@ -486,6 +486,61 @@ def rule_samesigma(ctx):
     return res.finish(1)
 
 
+def rule_siblingfields(ctx):
+    """`Pca::transform` (a dataset in, a dataset out) and `Pca::predict_inplace` are two calling forms of one map.  Whatever
+    part of the fitted model the one reads - the mean, the axes, a whitening scale - the other has to read too (directly or
+    through the functions it calls): a form that never reaches a field the other uses computes another map (whitening that
+    reaches `predict` but not `transform`)."""
+    res = RuleResult("R-C18-siblingfields", "the two calling forms of the PCA projection (predict_inplace, Transformer::transform) reach reads of the same fields of the model")
+    F = ctx.facts()
+    fns = [f for f in F.all_fns() if f["d"]["krate"] == "linfa_reduction" and "pca" in fn_file(f) and not f.get("exp") and (f["d"].get("self_adt") or "").endswith("Pca")]
+    by_def = {f["def"]: f for f in fns}
+
+    def direct(f):
+        sl = next((b["local"] for p_ in f["params"] for b in pat_bindings(p_) if b["name"] == "self"), None)
+        return set(x["name"] for x in walk(f["body"]) if x.get("k") == "Field" and sl is not None and peel_refs(x["e"]).get("local") == sl)
+
+    def reach(f):
+        seen, todo, reads = set(), [f], set()
+        while todo:
+            g = todo.pop()
+            if id(g) in seen:
+                continue
+            seen.add(id(g))
+            reads |= direct(g)
+            for x in walk(g["body"]):
+                di = None
+                if x.get("k") == "MethodCall":
+                    di = [x.get("inst"), x.get("def")]
+                elif x.get("k") == "Call" and strip(x["f"]).get("k") == "Path":
+                    di = [strip(x["f"]).get("inst"), strip(x["f"]).get("def")]
+                for d_ in di or []:
+                    if d_ in by_def:
+                        todo.append(by_def[d_])
+                # a trait method called on self (`self.predict_inplace(..)`, `self.predict(..)`): every impl on Pca of that name
+                if x.get("k") == "MethodCall" and peel_refs(x["recv"]).get("name") == "self":
+                    todo.extend(h for h in fns if h["d"]["name"] == x["name"] or (x["name"] == "predict" and h["d"]["name"] == "predict_inplace"))
+        return reads
+    pred = [f for f in fns if f["d"]["name"] == "predict_inplace"]
+    trans = [f for f in fns if f["d"]["name"] == "transform" and (f["d"].get("trait") or "").endswith("Transformer")]
+    if not pred or not trans:
+        res.missing_anchor("Pca::predict_inplace and <Pca as Transformer>::transform (found %d / %d)" % (len(pred), len(trans)))
+        return res.finish(1)
+    want = set()
+    for f in pred:
+        want |= reach(f)
+    for f in trans:
+        key = fn_key(f)
+        res.instance(key)
+        got = reach(f)
+        missing = sorted(want - got)
+        if missing:
+            res.violate("%s : ignores:%s" % (key, ",".join(missing)), "`transform` never reaches a read of the model's `%s`, which `predict_inplace` uses: the two forms of the projection are different maps" % ", ".join(missing), fn_loc(f))
+        else:
+            res.ok()
+    return res.finish(1)
+
+
 def rule_stale(ctx):
     """no field of a fitted model is computed from a local that is stored in another field and mutated in between (rules/stale.py)"""
     from . import stale
@@ -548,7 +603,7 @@ def rules(tier):
     from . import intnarrow, sizeroute, c16
     return [sizeroute.make_rule("R-C18-sizeroute", lambda f: f["d"]["krate"] == "linfa_reduction", "linfa-reduction"),
             intnarrow.make_rule("R-C18-narrow", lambda f: f["d"]["krate"] == "linfa_reduction" and "pca" in fn_file(f), "linfa-reduction pca"),
-            rule_ratiosquares, rule_samesigma, c16.make_absfloor_rule("R-C18-absfloor", lambda f: f["d"]["krate"] == "linfa_reduction" and f["d"]["name"] == "fit" and "pca" in fn_file(f) and not f.get("exp"), "PcaParams::fit"), rule_whitenscale, rule_centreonce, rule_guard, rule_n, rule_project, rule_memorder, rule_overwrite, rule_stale, rule_ratio_paths, c01.rule_width,
+            rule_ratiosquares, rule_siblingfields, rule_samesigma, c16.make_absfloor_rule("R-C18-absfloor", lambda f: f["d"]["krate"] == "linfa_reduction" and f["d"]["name"] == "fit" and "pca" in fn_file(f) and not f.get("exp"), "PcaParams::fit"), rule_whitenscale, rule_centreonce, rule_guard, rule_n, rule_project, rule_memorder, rule_overwrite, rule_stale, rule_ratio_paths, c01.rule_width,
             carry.make_clone_rule("R-C18-clone", {"linfa_reduction"}, 4), carry.make_setter_rule("R-C18-override", {"linfa_reduction"}, 2), rule_rowlocal,
             precision.make_rule("R-C18-precision", lambda f: f["d"]["krate"] == "linfa_reduction" and "pca" in fn_file(f), 9, "linfa-reduction pca"),
             carry.make_accessor_rule("R-C18-accessor", {"linfa_reduction"}, 4), carry.make_ctor_rule("R-C18-ctor", {"linfa_reduction"}, 2)]
